@@ -59,7 +59,7 @@ prop("C05", ["DIR-1", "WID-3", "WID-8", "WID-1", "TAB-1", "TXT-1~^(?!parse_line:
      "self-sized lists and strings) or reaches the empty CodePackage; list separators; string delimiters must match; FCC's closing delimiter is the first occurrence after the opening one; "
      "two's-complement rendering at the directive's width.",
      "byte-for-byte content for arbitrary lists and strings; range rejection (recorded finding: renderings are not range-checked).", ASM_ASSUME)
-prop("C06", ["CAS-1~:(name|name-source|name-filter|source|field\\d+\\(\\w+\\)|fields|data|continuation|length|pairing)$", "CAS-3", "CAS-5", "CAS-6", "VF-8"],
+prop("C06", ["CAS-1~:(name|name-source|name-filter|source|field\\d+\\(\\w+\\)|fields|data|continuation|length|pairing|address-bytes)$", "CAS-3", "CAS-5", "CAS-6", "VF-8"],
      "the reader consumes exactly the frames the writer produces: header signature, each header field read at the offset the writer stores it and delivered to the matching CoCoFile field, "
      "name length, where block search resumes, data blocks stepped over by exactly 4 + len + 2 with payload copied from offset 4, EOF frame length; writers never modify the data they are given.",
      "equality of data for all contents and lengths; tolerance of arbitrary foreign tapes.")
